@@ -478,6 +478,46 @@ pub fn run_c04(tier: &str) -> i32 {
                     }
                 }
             }
+            // core layer: ONE builder object issues twice with the same nonce, first under K1 then under K2 (both
+            // orders of two pool keys): each token opens under the key of its own call and not under the other
+            // (state a builder keeps from its first issue - a key split, a derived key - must not key the second)
+            if *l == Layer::Core && pool.len() > 1 {
+                for (i1, i2) in [(0usize, 1usize), (1, 0)] {
+                    let seed_b = seed.clone().unwrap_or_default();
+                    let a_opt = if p.has_assertion() { fas[3].1.as_deref() } else { None };
+                    let toks = crate::adapter::core_issue_twice_keys(*p, &pool[i1].sk, &pool[i2].sk, &seed_b, &msgs[1], fas[1].0.as_deref(), a_opt);
+                    for (n, t) in toks.iter().enumerate() {
+                        let (own, other) = if n == 0 { (&pool[i1], &pool[i2]) } else { (&pool[i2], &pool[i1]) };
+                        acc.choice_points += 1;
+                        let crate::adapter::Out::Ok(token) = t else {
+                            acc.bump("one-builder-two-keys:not-issued");
+                            continue;
+                        };
+                        for (k, expect) in [(own, true), (other, false)] {
+                            let o = crate::adapter::core_present(*p, &k.pk, token, fas[1].0.as_deref(), a_opt);
+                            acc.executions += 1;
+                            acc.impl_calls += 1;
+                            let ok = match &o {
+                                crate::adapter::Out::Ok(m) => expect && *m == msgs[1],
+                                crate::adapter::Out::Err(_) => !expect,
+                                _ => false,
+                            };
+                            if ok {
+                                acc.bump(if expect { "one-builder-two-keys:opens-under-own-key" } else { "one-builder-two-keys:refused-under-other-key" });
+                                if expect {
+                                    acc.controls_ok += 1;
+                                }
+                            } else {
+                                acc.violate(
+                                    format!("C04|{}|core|one-builder-two-keys|{}", p.name(), if expect { "own-key-refused" } else { "other-key-accepted" }),
+                                    format!("one Paseto builder issued under {} then under {} (same nonce): token #{} presented under {} ({}): {}", pool[i1].label, pool[i2].label, n + 1, k.label, if expect { "the key of its own call" } else { "the key of the other call" }, o.short()),
+                                    json!({"tag": "one-builder-two-keys", "proto": p.name(), "order": [i1, i2], "token_no": n + 1, "token": token}),
+                                );
+                            }
+                        }
+                    }
+                }
+            }
             if *p == Proto::V3P {
                 // same x, other parity prefix
                 for k in &pool {
@@ -506,7 +546,7 @@ pub fn run_c04(tier: &str) -> i32 {
     finish(
         run,
         merged,
-        json!({"space": "protocol x layer x ordered pairs of pool keys x message x footer/assertion; all single-bit neighbours of the accepting key (local: both directions); local, core layer: every key differing from the accepting key in its low 12 (thorough: 16) bits against the empty and the 2-byte message; P-384 other-parity point; one parser object parsing the same token under the right and a wrong key in both orders; v3.public: every other key recoverable from the token's own signature (reference-computed)",
+        json!({"space": "protocol x layer x ordered pairs of pool keys x message x footer/assertion; all single-bit neighbours of the accepting key (local: both directions); local, core layer: every key differing from the accepting key in its low 12 (thorough: 16) bits against the empty and the 2-byte message; one core builder issuing twice with the same nonce under two keys; P-384 other-parity point; one parser object parsing the same token under the right and a wrong key in both orders; v3.public: every other key recoverable from the token's own signature (reference-computed)",
                "distinct_rule": "distinct (token, presented key, footer, assertion, layer) presentations", "caps_hit": []}),
     )
 }
